@@ -224,25 +224,50 @@ def _discharge_text(ob, text, workdir, timeout, second_opinion=False, only_first
 
 
 def discharge(obligations, axioms, timeout=10, jobs=None, second_opinion=False, workdir=None):
+    """Two passes: (1) every obligation with a short budget on the first solver; (2) what is left, with relevance
+    slices and the whole portfolio.  When very many are left the tree is probably broken in a systematic way:
+    the second pass then uses a reduced budget so that the run still ends in reasonable time."""
     jobs = jobs or min(16, os.cpu_count() or 4)
     own = workdir is None
     if own:
         workdir = tempfile.mkdtemp(prefix='pyvc_smt_')
-    texts = []
-    stexts = []
     use_slices = not os.environ.get('VERIF_NO_SLICES')
-    for ob in obligations:
-        texts.append(to_smt2(ob.formula(axioms), want_model=True))
-        sl = []
-        if use_slices and ob.expect == 'unsat' and len(ob.pc) > 40:
-            for hyps in slices(ob):
-                if len(hyps) < len(ob.pc):
-                    sl.append(to_smt2(list(axioms) + hyps + [z3.Not(ob.goal)]))
-        stexts.append(sl)
+    texts = [to_smt2(ob.formula(axioms), want_model=True) for ob in obligations]
+    results = [None] * len(obligations)
+    quick = min(6, timeout)
+
+    def first(i):
+        ob = obligations[i]
+        return _discharge_text(ob, texts[i], workdir, quick, False, only_first=True)
     with ThreadPoolExecutor(max_workers=jobs) as ex:
-        futs = [ex.submit(discharge_one, ob, tx, workdir, timeout, second_opinion, st_)
-                for ob, tx, st_ in zip(obligations, texts, stexts)]
-        results = [f.result() for f in futs]
+        for i, r in enumerate(ex.map(first, range(len(obligations)))):
+            results[i] = r
+    todo = [i for i, r in enumerate(results)
+            if r.verdict in ('unknown',) or (second_opinion and r.verdict == 'discharged')]
+    hard = [i for i in todo if results[i].verdict == 'unknown']
+    budget = timeout if len(hard) <= 24 else max(10, timeout // 4)
+
+    def second(i):
+        ob = obligations[i]
+        spent = results[i].seconds
+        if results[i].verdict == 'unknown' and use_slices and len(ob.pc) > 40:
+            for k, hyps in enumerate(slices(ob)):
+                if len(hyps) >= len(ob.pc):
+                    continue
+                stext = to_smt2(list(axioms) + hyps + [z3.Not(ob.goal)])
+                rs = _discharge_text(ob, stext, workdir, max(5, budget // 3), False, only_first=True)
+                spent += rs.seconds
+                if rs.verdict == 'discharged':
+                    rs.solver = '%s (relevance slice %d)' % (rs.solver, k + 1)
+                    rs.seconds = spent
+                    return rs
+        r1 = _discharge_text(ob, texts[i], workdir, budget, second_opinion)
+        r1.seconds += spent
+        return r1
+    if todo:
+        with ThreadPoolExecutor(max_workers=jobs) as ex:
+            for i, r in zip(todo, ex.map(second, todo)):
+                results[i] = r
     if own:
         try:
             os.rmdir(workdir)
